@@ -125,6 +125,14 @@ def gen_cases(rng, tier):
         npos, nneg, ep, en = rng.randint(1, 12), rng.randint(1, 12), easy(), easy()
         r = _safe_ratio(rng, [npos, nneg, ep, en])
         cases.append(_case(rng, npos, nneg, "proportion", strat3(), ep=ep, en=en, ratio=r, distinct=True))
+    # larger classes, small fractions: several indices drawn per class, so a repeated index (sampling WITH replacement,
+    # or a top-up that forgets what is already selected) has room to happen
+    for _ in range(8 * mult):
+        npos, nneg = rng.choice([(40, 60), (100, 150), (80, 40), (150, 120)])
+        r = rng.choice([Fraction(1, 4), Fraction(1, 5), Fraction(1, 8), Fraction(1, 10)])
+        if not all(int(float(r) * n) == math.floor(r * n) for n in (npos, nneg)):
+            r = Fraction(1, 4)
+        cases.append(_case(rng, npos, nneg, "proportion", rng.choice([None, "by_label"]), ratio=r, distinct=True))
     cases.append(_case(rng, 4, 4, "proportion", None, ratio=None))
     cases.append(_case(rng, 5, 3, "proportion", None, ratio=Fraction(1), distinct=True))
     # F. callable / unsupported
